@@ -117,7 +117,7 @@ Ltac cheap :=
   try (intros; brk; (discriminate || congruence));
   try (intros; brk; rewrite ?app_nil_r, <- ?app_assoc in *; cbn in *; (reflexivity || congruence));
   try (intros; brk; first [ left; (reflexivity || congruence || lia) | right; (reflexivity || congruence || lia) | split; (reflexivity || congruence) ]);
-  try (intros; brk; timeout 5 (intuition (congruence || discriminate || lia))).
+  try (intros; brk; timeout 300 (intuition (congruence || discriminate || lia))).
 
 Lemma InvCtl_step s p a b s' : InvCtl s -> step kind_of s p a b = Some s' -> InvCtl s'.
 Proof.
@@ -134,7 +134,7 @@ Proof.
     split_matches H; inv_some. eapply InvCtl_same_ctl; [apply run_msg_ctl|]. constructor; cbn in *; cheap. }
   22: { (* term_cancel *)
     split_matches H; inv_some. eapply InvCtl_same_ctl; [eapply do_clear_ctl; exact H|]. constructor; cbn in *; cheap. }
-  all: try (timeout 30 (split_matches H; inv_some; constructor; cbn in *; cheap)).
+  all: try (timeout 1800 (split_matches H; inv_some; constructor; cbn in *; cheap)).
 Qed.
 
 End WithKinds.
